@@ -189,7 +189,6 @@ var schemaTypeComparisonMap = map[SchemaType][]SchemaType{
 	},
 	SchemaTypeNull: {
 		SchemaTypeNull,
-		SchemaTypeArray,
 		SchemaTypeEnum,
 		SchemaTypeMixed,
 		SchemaTypeAny,
